@@ -86,7 +86,7 @@ def run(ctx):
         with open(canary, "w") as f:
             f.write("<!-- canary -->")
         for i in range(n):
-            g = gen_xml.XGen(rng, textboxes=False, notes=(i % 2 == 0), comments=False, anomalies=0.1, deleted=False, linked_rate=0.6)
+            g = gen_xml.XGen(rng, textboxes=False, notes=(i % 2 == 0), comments=False, anomalies=0.1, deleted=False, linked_rate=0.6, odd_links=0.4)
             pkg = g.package(rng.randint(1, 4))
             # linked images: relative targets (files next to the input, present or missing) and URLs on a closed local port
             for t in list(pkg.linked):
